@@ -79,8 +79,8 @@ Definition py_basename (p : str) : str := rev (take_until_slash (rev p)).
 (* the prefix put in front of relative link selectors.
    PINNED code: always self.selectorbase — for a "*.gophermap" FILE that is
    the file's own selector ("/dir/x.gophermap" ++ "/" ++ rel).
-   REPAIRED code (proposed_fixes/C09-mapfile-relative-base.patch): the directory
-   the file is in. *)
+   REPAIRED code (/repo commit 3356e1d, proposed_fixes/C09-mapfile-relative-base.patch):
+   os.path.dirname of the file's selector, i.e. the directory the file is in. *)
 Definition gm_linkbase_pinned (kind : nodekind) (sel : str) : str := gm_selectorbase sel.
 Definition gm_linkbase_fixed (kind : nodekind) (sel : str) : str :=
   if gm_is_mapfile kind sel then gm_selectorbase (py_dirname sel) else gm_selectorbase sel.
